@@ -247,34 +247,7 @@ func runC10(c *Ctx) {
 	for _, k := range keys {
 		c.Report(nil, "tabled merged slice "+k+" still appended in Merge", 0, seenField[k], "table entry")
 	}
-	sortedUse := func(fnKey, slice, sink string) {
-		fn := c.Need(fnKey)
-		if fn == nil {
-			return
-		}
-		sinks := c.CallsD(fn, sink)
-		c.MP(fn, slice+" sorted before the closed value is built", sinks, 1,
-			GCalled("sort.Slice("+slice+", *)"), GCalled("sort.SliceStable("+slice+", *)"), GCmp("len("+slice+")", "<=", "0"), GCmp("len("+slice+")", "<", "2"))
-		for _, in := range append(c.CallsD(fn, "sort.Slice("+slice+", *)"), c.CallsD(fn, "sort.SliceStable("+slice+", *)")...) {
-			cmp, _ := CallArg(in, 1).(*ssa.MakeClosure)
-			ok := false
-			got := ""
-			if cmp != nil {
-				for _, r := range Returns(cmp.Fn.(*ssa.Function)) {
-					got = c.D(RetVal(r, 0))
-					for _, op := range []string{"<", ">"} {
-						if P("("+slice+"[i].* "+op+" "+slice+"[j].*)").Match(got) || P("("+slice+"[j].* "+op+" "+slice+"[i].*)").Match(got) {
-							ok = true
-						}
-					}
-				}
-			}
-			c.Report(fn, slice+" comparator orders by an attribute of both elements", c.InstrPos(in), ok, got)
-		}
-	}
-	sortedUse("isaac/operation.(*SuffrageJoinStateValueMerger).closeValue", "s.joined", "isaac.NewSuffrageNodesStateValue(*)")
-	sortedUse("isaac/operation.(*SuffrageCandidatesStateValueMerger).closeValue", "s.added", "isaac.NewSuffrageCandidatesStateValue(*)")
-	sortedUse("base.(*BaseStateValueMerger).CloseValue", "s.ops", "base.NewBaseState(*)")
+	mergerOrderRules(c)
 	filterOnly := func(typeName, field string) {
 		n := 0
 		for _, s := range c.WhoTouches(typeName, field) {
@@ -367,4 +340,37 @@ func fieldName(fa *ssa.FieldAddr) string {
 		return st.Field(fa.Field).Name()
 	}
 	return "?"
+}
+
+// mergerOrderRules: slices appended by concurrent Merge calls are sorted (comparator over both
+// elements) before the closed value is built.
+func mergerOrderRules(c *Ctx) {
+	sortedUse := func(fnKey, slice, sink string) {
+		fn := c.Need(fnKey)
+		if fn == nil {
+			return
+		}
+		sinks := c.CallsD(fn, sink)
+		c.MP(fn, slice+" sorted before the closed value is built", sinks, 1,
+			GCalled("sort.Slice("+slice+", *)"), GCalled("sort.SliceStable("+slice+", *)"), GCmp("len("+slice+")", "<=", "0"), GCmp("len("+slice+")", "<", "2"))
+		for _, in := range append(c.CallsD(fn, "sort.Slice("+slice+", *)"), c.CallsD(fn, "sort.SliceStable("+slice+", *)")...) {
+			cmp, _ := CallArg(in, 1).(*ssa.MakeClosure)
+			ok := false
+			got := ""
+			if cmp != nil {
+				for _, r := range Returns(cmp.Fn.(*ssa.Function)) {
+					got = c.D(RetVal(r, 0))
+					for _, op := range []string{"<", ">"} {
+						if P("("+slice+"[i].* "+op+" "+slice+"[j].*)").Match(got) || P("("+slice+"[j].* "+op+" "+slice+"[i].*)").Match(got) {
+							ok = true
+						}
+					}
+				}
+			}
+			c.Report(fn, slice+" comparator orders by an attribute of both elements", c.InstrPos(in), ok, got)
+		}
+	}
+	sortedUse("isaac/operation.(*SuffrageJoinStateValueMerger).closeValue", "s.joined", "isaac.NewSuffrageNodesStateValue(*)")
+	sortedUse("isaac/operation.(*SuffrageCandidatesStateValueMerger).closeValue", "s.added", "isaac.NewSuffrageCandidatesStateValue(*)")
+	sortedUse("base.(*BaseStateValueMerger).CloseValue", "s.ops", "base.NewBaseState(*)")
 }
